@@ -1156,8 +1156,16 @@ class Fxp():
         return val
 
     def _round(self, val, method='floor'):
-        if isinstance(val, int) or np.issubdtype(np.array(val).dtype, np.integer) or np.issubdtype(np.array(val).dtype, np.object_):
+        if isinstance(val, int) or np.issubdtype(np.array(val).dtype, np.integer):
             rval = val
+        elif np.issubdtype(np.array(val).dtype, np.object_):
+            # python objects: integers are kept as they are, floating point values are rounded one by one
+            _funcs = {'around': np.around, 'floor': np.floor, 'ceil': np.ceil, 'fix': np.fix, 'trunc': np.trunc}
+            if method in _funcs and any(isinstance(v, (float, np.floating)) for v in np.asarray(val).flat):
+                _val = np.asarray(val)
+                rval = np.array([_funcs[method](v) if isinstance(v, (float, np.floating)) else v for v in _val.flat], dtype=object).reshape(_val.shape)
+            else:
+                rval = val
         elif method == 'around':
             rval = np.around(val)
         elif method == 'floor':
